@@ -108,7 +108,7 @@ def run(ctx):
         lc.simulate_and_replay(ctx, name, lc.CACHE_ACTS, num, 12, ctx.seed + 1, label="cache")
         lc.simulate_and_replay(ctx, name, lc.ALL_ACTS, num // 2, 14, ctx.seed + 2, label="all")
     for name in ["Elastic", "Thermal", "MatSimu"]:
-        lc.simulate_and_replay(ctx, name, ["SetMesh", "SaveIter", "SetIter", "Solve", "GetKCMF", "Translate", "SetParam"], num // 2, 12, ctx.seed + 4, label="restore")
+        lc.simulate_and_replay(ctx, name, ["SetMesh", "SaveIter", "SetIter", "Solve", "GetKCMF", "Rotate", "SetCoord", "SetParam"], num, 14, ctx.seed + 4, label="restore")
     lc.simulate_and_replay(ctx, "Elastic", ["SetParam", "SetRho", "Translate", "SetCoord", "SetMesh", "GetKCMF", "Solve", "SetBc"], num // 2, 10, ctx.seed + 3, sims=("s1", "s2"), label="shared")
     for name in ["Beam", "Elastic3D", "WeakForms", "HyperElastic", "PhaseField", "ElasticField"]:
         lc.simulate_and_replay(ctx, name, lc.ALL_ACTS, num // 3, 14, ctx.seed + 5, label="all")
